@@ -58,6 +58,10 @@ package ast
 //@     invariant own: own(clone.Options)
 //@     invariant len: len(clone.Options) == $i + 1
 //@     invariant elems: forall j: int :: 0 <= j && j < len(clone.Options) ==> copyrel(builder.Options[j], clone.Options[j])
+//@   loop 2:
+//@     invariant own: own(clone.Factories)
+//@     invariant len: len(clone.Factories) == $i + 1
+//@     invariant elems: forall j: int :: 0 <= j && j < len(clone.Factories) ==> copyrel(builder.Factories[j], clone.Factories[j])
 //
 //@ func (*Constructor).DeepCopy
 //@   loop 0:
